@@ -160,6 +160,9 @@ func (w *World) checkSnap(cur *Snap) {
 		return
 	}
 	w.noteTainted(cur, st)
+	for _, k := range cur.StrayKeys {
+		w.violate("C07", "store", "record-that-is-neither-vertex-nor-funds-in-vertex-store", cur.Node, "key %q", shortAddr(k))
+	}
 	w.oracleC09(cur)
 	w.oracleC03(cur)
 	w.oracleC10(cur)
@@ -443,7 +446,7 @@ func (w *World) oracleC05hist(s *Snap) {
 	}
 	for a, f := range s.Funds {
 		if !canonical(f) {
-			w.violate("C05", "non-canonical", "non-canonical-checkpoint-funds", n, "address %s funds %v", a[:8], f)
+			w.violate("C05", "non-canonical", "non-canonical-checkpoint-funds", n, "address %s funds %v", shortAddr(a), f)
 		}
 	}
 }
@@ -607,7 +610,7 @@ func (w *World) oracleC02(s *Snap) {
 		bal := new(big.Int).Sub(in, out)
 		total.Add(total, bal)
 		if bal.Sign() < 0 {
-			over = append(over, fmt.Sprintf("%s:%s", a[:8], bal))
+			over = append(over, fmt.Sprintf("%s:%s", shortAddr(a), bal))
 		}
 	}
 	w.probe("c02-evaluated")
